@@ -86,7 +86,12 @@ def build(args):
     try:
         with redirect_stdout(buf), warnings.catch_warnings():
             warnings.simplefilter("ignore")
-            p.print_decay_modes(mother_arg, **kw)
+            if cid % 4 == 3:
+                # the same call with every argument given by position (the order of the documented signature)
+                p.print_decay_modes(mother_arg, kw["pdg_name"], kw["print_model"], kw["display_photos_keyword"], kw["ascending"],
+                                    kw["normalize"], kw.get("scale"))
+            else:
+                p.print_decay_modes(mother_arg, **kw)
     except Exception as e:  # noqa: BLE001
         raised = repr(e)
     out = buf.getvalue()
